@@ -10,12 +10,17 @@ use crate::ogre_std::{
         },
         ogre_sync,
     };
+#[cfg(not(feature = "verif"))]
 use std::{
     time::Duration,
     sync::atomic::{AtomicU32, AtomicBool, Ordering::Relaxed},
     pin::Pin,
     task::Waker,
 };
+#[cfg(feature = "verif")]
+use std::{time::Duration, sync::atomic::Ordering::Relaxed, pin::Pin, task::Waker};
+#[cfg(feature = "verif")]
+use crate::verif::{AtomicU32, AtomicBool};
 use std::cell::UnsafeCell;
 use minstant::Instant;
 
